@@ -123,23 +123,27 @@ def nameUnesc (c : Char) : Char :=
   | none => c
 
 /-- the `while index < len(body)` loop of `_decode_attr_name`; `none` is the early `return None`
-    (interpolation, unescaped quote, dangling backslash) -/
-def decodeNameBody : Text → Option Text
-  | [] => some []
-  | c :: rest =>
+    (interpolation, unescaped quote, dangling backslash). The first argument bounds the number of
+    iterations (every iteration advances `index`, so `len(body) + 1` is never reached); it makes the
+    recursion structural, so that closed instances reduce (`decide`). -/
+def decodeNameBodyF : Nat → Text → Option Text
+  | 0, _ => none
+  | _ + 1, [] => some []
+  | n + 1, c :: rest =>
     if c = '\\' then
       match rest with
       | [] => none
-      | e :: more => (decodeNameBody more).map (nameUnesc e :: ·)
+      | e :: more => (decodeNameBodyF n more).map (nameUnesc e :: ·)
     else if c = '"' then none
     else
       match rest with
       | [] => some [c]
       | f :: more =>
         if c = '$' ∧ f ≠ '"' ∧ f ≠ '\\' then
-          if f = '{' then none else (decodeNameBody more).map (fun r => c :: f :: r)
-        else (decodeNameBody (f :: more)).map (c :: ·)
-termination_by s => s.length
+          if f = '{' then none else (decodeNameBodyF n more).map (fun r => c :: f :: r)
+        else (decodeNameBodyF n (f :: more)).map (c :: ·)
+
+def decodeNameBody (s : Text) : Option Text := decodeNameBodyF (s.length + 1) s
 
 /-- `_decode_attr_name(token)`: the name Nix reads from a name token, `none` when it is not static
     or not a single name token -/
